@@ -143,7 +143,9 @@ func (p *Prosumer) message() {
 			if topics == nil {
 				return
 			}
-			go p.dispatch(topics)
+			// dispatch in the polling goroutine: one goroutine per batch would let the
+			// callbacks of a later batch overtake those of an earlier one.
+			p.dispatch(topics)
 		}
 		for err != nil {
 			if !core.IsTimeoutError(err) {
